@@ -268,6 +268,8 @@ def _eval_const(expr: str, env: dict):
                     parts.append(str(ev(value.value)))
                     continue
                 raise ValueError("unsupported f-string")
+            if sum(len(part) for part in parts) > 65536:
+                raise ValueError("constant too large to fold")
             return "".join(parts)
         if (
             isinstance(n, ast.Call)
@@ -336,6 +338,8 @@ def _eval_const(expr: str, env: dict):
 
     def _apply_bin(opcls, a, b):
         if opcls is ast.Add and isinstance(a, str) and isinstance(b, str):
+            if len(a) + len(b) > 65536:
+                raise ValueError("constant too large to fold")
             return a + b
         ops = {
             ast.Add: op.add, ast.Sub: op.sub, ast.Mult: op.mul, ast.Div: op.truediv,
@@ -349,7 +353,9 @@ def _eval_const(expr: str, env: dict):
             # never fold astronomically large integers at transpile time
             if opcls is ast.Pow and b > 0 and abs(a) > 1 and b * abs(a).bit_length() > 4096:
                 raise ValueError("constant too large to fold")
-            if opcls is ast.LShift and b > 4096:
+            if opcls is ast.LShift and (b > 4096 or a.bit_length() + b > 8192):
+                raise ValueError("constant too large to fold")
+            if opcls is ast.Mult and a.bit_length() + b.bit_length() > 8192:
                 raise ValueError("constant too large to fold")
         return ops[opcls](a, b)
 
